@@ -54,10 +54,11 @@ def plan(S, hist, rng, pending, eod, bare_commit=False):
             if pending == "rev-abort":
                 pass
             sc.exchange(S.preauth_reversal(cfg["cur"], pending), [S.completion()])
+        deco = [S.status_info({0x27: 0, 0x04: 12345})] if rng.random() < 0.5 else []     # the totals of the batch may precede either outcome
         if eod == "completion":
-            sc.exchange(S.end_of_day(cfg["pw"]), [S.intermediate(), S.print_line(), S.completion()])
+            sc.exchange(S.end_of_day(cfg["pw"]), deco + [S.intermediate(), S.print_line(), S.completion()])
         else:
-            sc.exchange(S.end_of_day(cfg["pw"]), [S.pr_abort(eod)])
+            sc.exchange(S.end_of_day(cfg["pw"]), deco + [S.pr_abort(eod)])
             if eod != 0xa0:
                 res = "Err:Zvt:Aborted:%d" % eod
         sc.exp_results.append(res)
